@@ -33,9 +33,13 @@ func newDiffState(oldMast *Mast, newMast *Mast) *diffState {
 	dc.alreadyNotifiedNewLink = map[uint8]interface{}{}
 	if oldMast != nil {
 		dc.oldMast = oldMast
-		dc.oldStack = newIterItemStack(iterItem{considerLink: oldMast.root})
+		if oldMast.root != nil {
+			dc.oldStack = newIterItemStack(iterItem{considerLink: oldMast.root})
+		}
 	}
-	dc.newStack = newIterItemStack(iterItem{considerLink: newMast.root})
+	if newMast.root != nil {
+		dc.newStack = newIterItemStack(iterItem{considerLink: newMast.root})
+	}
 	return &dc
 }
 
